@@ -29,6 +29,8 @@ for i, ch in enumerate(meta["changes"]):
     demo = os.path.join(outd, ch["demo"])
     demo_path = ch.get("demo_path", "tests/seed_demo_%d.rs" % (i + 1))
     tname = os.path.splitext(os.path.basename(demo_path))[0]
+    # a demonstration of a cfg(not(feature = "tls")) change runs without default features
+    flags = " --no-default-features" if "--no-default-features" in (ch.get("run") or "") else ""
     sh("git checkout -q -- . && git clean -fdq tests src")
     rc, o = sh("git apply --check %s && git apply %s" % (patch, patch))
     if rc != 0:
@@ -36,9 +38,9 @@ for i, ch in enumerate(meta["changes"]):
     rc, o = sh("cargo test --offline 2>&1")
     s_ok, s_res = suite_ok(o)
     shutil.copy(demo, os.path.join(wt, demo_path))
-    rc_with, o_with = sh("timeout 600 cargo test --offline --test %s 2>&1" % tname)
+    rc_with, o_with = sh("timeout 900 cargo test --offline%s --test %s 2>&1" % (flags, tname))
     sh("git apply -R %s" % patch)
-    rc_without, o_without = sh("timeout 600 cargo test --offline --test %s 2>&1" % tname)
+    rc_without, o_without = sh("timeout 900 cargo test --offline%s --test %s 2>&1" % (flags, tname))
     os.remove(os.path.join(wt, demo_path))
     sh("git checkout -q -- . && git clean -fdq tests src")
     confirmed = s_ok and rc_with != 0 and rc_without == 0
@@ -51,8 +53,8 @@ for i, ch in enumerate(meta["changes"]):
         m = {"id": sid, "property": prop, "breaks": ch.get("what_breaks"), "needs_to_manifest": ch.get("needs_to_manifest"),
              "why_existing_tests_pass": ch.get("why_existing_tests_pass"), "demo": os.path.basename(demo_path), "demo_path": demo_path,
              "base_commit": subprocess.run("git rev-parse --short HEAD", shell=True, cwd=wt, capture_output=True, text=True).stdout.strip(),
-             "confirmed_by_me": {"ran": ["git apply patch.diff; cargo test --offline (whole suite)", "cargo test --offline --test %s (with change)" % tname,
-                                         "git apply -R; cargo test --offline --test %s (without change)" % tname],
+             "confirmed_by_me": {"ran": ["git apply patch.diff; cargo test --offline (whole suite)", "cargo test --offline%s --test %s (with change)" % (flags, tname),
+                                         "git apply -R; cargo test --offline%s --test %s (without change)" % (flags, tname)],
                                  "suite_results": s_res, "demo_fails_with_change": rc_with != 0, "demo_passes_without_change": rc_without == 0,
                                  "demo_failure_excerpt": "\n".join(l for l in o_with.splitlines() if "panicked" in l or "assert" in l.lower())[:600]},
              "source": "independent sub-agent given only the property text and a scratch worktree"}
